@@ -32,7 +32,7 @@ cls('Bucket', M, {'affinity_strategies': 'Dict[Name,SpreadStrategy]'})
 cls('Server', M, {'init_capacity': 'Vec', 'apps': 'Dict[Name,Application]', 'up_since': 'Real',
                   'presence_id': 'Opt[Name]'})
 cls('Cell', M, {'partitions': 'Dict[Opt[Name],Partition]', 'next_event_at': 'Ext',
-                'apps': 'Dict[Name,Application]', 'identity_groups': 'Dict[Name,IdentityGroup]'})
+                'apps': 'Dict[Name,Application]', 'identity_groups': 'DefaultDict[Name,IdentityGroup]'})
 cls('SpreadStrategy', M, {'current_idx': 'Int', 'node': 'Bucket'})
 cls('Allocation', M, {
     'reserved': 'Vec', 'rank': 'Int', 'rank_adjustment': 'Int', 'traits': 'Bits', 'label': 'Opt[Name]',
